@@ -2,6 +2,7 @@ package udp
 
 import (
 	"context"
+	"errors"
 	"net"
 	"sync"
 	"time"
@@ -9,6 +10,9 @@ import (
 	"github.com/postalsys/muti-metroo/internal/crypto"
 	"github.com/postalsys/muti-metroo/internal/identity"
 )
+
+// ErrNoSessionKey is returned by Encrypt when the association has no E2E session key.
+var ErrNoSessionKey = errors.New("UDP association has no session key")
 
 // AssociationState represents the state of a UDP association.
 type AssociationState int
@@ -193,7 +197,9 @@ func (a *Association) GetSessionKey() *crypto.SessionKey {
 }
 
 // Encrypt encrypts data using the session key.
-// Returns the original data if no session key is set.
+// Fails closed with ErrNoSessionKey if no session key is set (never negotiated,
+// or already cleared by Close): the data is tunnelled through transit agents
+// and must never leave this agent unencrypted.
 //
 // The RLock is held for the duration of the crypto operation so that a
 // concurrent Close (which zeros the key bytes) cannot race a use of the
@@ -205,7 +211,7 @@ func (a *Association) Encrypt(plaintext []byte) ([]byte, error) {
 	defer a.mu.RUnlock()
 
 	if a.SessionKey == nil {
-		return plaintext, nil
+		return nil, ErrNoSessionKey
 	}
 
 	return a.SessionKey.Encrypt(plaintext)
